@@ -74,7 +74,7 @@ def reindex_case(draw):
     new = draw(new_labels(spec["labels"][ax]))
     method = draw(st.sampled_from([None, None, None, "left", "right"]))
     return {"mode": "axis", "spec": spec, "ax": ax, "axis_form": draw(st.sampled_from(["name", "pos"])), "new": new,
-            "as": draw(st.sampled_from(["list", "array", "axis"])), "fill": draw(st.sampled_from(["nan", "nan", "nan", -1, "missing"])),
+            "as": draw(st.sampled_from(["list", "array", "axis"])), "fill": draw(st.sampled_from(["nan", "nan", "nan", -1, "missing", 0, ""])),
             # raise_error is only combined with method=None: with a method nothing is ever filled, the statement does not say what "missing" means
             "raise_error": draw(st.sampled_from([False, False, True])) if method is None else False, "method": method}
 
@@ -95,7 +95,7 @@ def like_case(draw):
     tdims = [tdims[i] for i in order]
     tlabels = [tlabels[i] for i in order]
     return {"mode": "like", "spec": spec, "tdims": tdims, "tlabels": tlabels, "t_as": draw(st.sampled_from(["dimarray", "axes"])),
-            "fill": draw(st.sampled_from(["nan", "nan", -1]))}
+            "fill": draw(st.sampled_from(["nan", "nan", -1, 0]))}
 
 
 def strategy(tier):
